@@ -63,6 +63,24 @@ _interp("C18", "Theorems C18_*: default / ifThen / ifThenElse by emptiness and t
 _interp("C19", "Theorems C19_*: Set is update-or-claim over a list read by first match: the latest binding wins, other names are untouched, Reset unbinds, Get of an unbound name is nil, lookups are pure.",
         "220 job sequences quick / 2500 thorough")
 
+def _parser(pid, what, bounded, mods=None):
+    PROPS[pid] = {
+        "case_modules": ["theories/CasesParser.v"],
+        "technique": "Coq theorems about the executable parser model (line cutter, regex cascade over regular expressions regenerated from parser.go by the translator, block recursion, registry shortcut) + differential correspondence: texts parsed by the real Parse (tree read through a verif hook) and by the model under vm_compute",
+        "level_text": what,
+        "level_note": "Unbounded: the theorems (every byte string, nesting depth, registry). Bounded: the correspondence (" + bounded + "). The regular expressions are translated by Go's own regexp/syntax (Parse+Simplify) into terms the model's matcher interprets; the matcher mirrors Go's regexp engine and is checked differentially (harness/retest.sh, ~40k cases), not derived. Trusted: translator, harness, hooks.",
+        "assumptions": ["the Coq regexp matcher (theories/Regex.v) agrees with Go's regexp engine on the parser's expressions (differentially tested)",
+                        "registered function names are those reported by the verif hook at the time of the run"],
+    }
+
+
+_parser("C08", "Theorems C08_*: the parser model terminates on every byte string with fuel length+2 (proved through a progress lemma for every branch of processCtl), a surplus closing brace, a stray else, an unclosed block and an unregistered callback are rejected. Byte strings (random, token soups, mutations of fixtures and generated programs, every single-brace edit) are run through the real Parse under recover and a watchdog (direct oracle: tree or error; unbalanced programs rejected) and a sample through the model.",
+        "4400 texts quick / 60000 thorough on the real parser, 180 / 6000 in the model")
+_parser("C09", "Theorems C09_*: leading layout (blanks, tabs, LF / CRLF, `;`), trailing blanks, comment lines and the final newline do not reach processCtl. PARTIAL on the proof side: spacing inside a line is decided by the regular expressions and is covered by the correspondence only: generated programs are rendered in all combinations of ten layout switches, every layout must parse to the canonical tree (direct oracle) and the model must produce the same tree.",
+        "40 programs x 15 layouts quick / 400 x 65 thorough")
+_parser("C20", "Theorems C20_*: for every registry reachable by registering trees that Parse returned (or hand-made zero trees), Parse returns exactly what parsing the text returns, in every history; and it terminates. Histories of Parse / Register* over texts including the empty text, a blank text and equal-length different texts are replayed on the real package (oracle: same error, structurally identical tree, same decode, bytes untouched) and on the model.",
+        "120 histories quick / 2500 thorough")
+
 NOT_YET = {}
 
 
